@@ -253,7 +253,16 @@ fn base_frames() -> &'static Vec<(SizeMode, Vec<u8>)> {
 
 const QUICK_VALUES: [u8; 10] = [0, 1, 5, 9, 0x1f, 0x40, 0x7f, 0x80, 0xfe, 0xff];
 
+/// multi-byte patterns written over a frame at every position (text escapes, codepage markers,
+/// UTF-8 sequences, version syntax): the crashing inputs of text decoders are rarely single bytes
+const PATTERNS: [&[u8]; 14] = [
+    b"x^J", b"^J", b"^^", b"^", b"1^L^", b"^8x", b"\xC3\xA9", b"0.7\xC3\xA9", b"0.7A\xC3\xA9", b"\xE2\x82\xAC", b"\xF0\x9F\x98\x80",
+    b"\xFF\xFE", b"9\xC3", b"^\xC3\xA9",
+];
+
 struct Sweeps {
+    d_offsets: Vec<u64>,
+    d: u64,
     a: u64,           // header pairs
     b_offsets: Vec<u64>, // cumulative start per base frame (positions * values)
     b: u64,
@@ -271,7 +280,11 @@ fn sweeps(tier: Tier) -> Sweeps {
     let mut b = 0u64;
     let mut c_offsets = Vec::new();
     let mut c = 0u64;
+    let mut d_offsets = Vec::new();
+    let mut d = 0u64;
     for (_, f) in base_frames() {
+        d_offsets.push(d);
+        d += ((f.len() - 2) * PATTERNS.len()) as u64;
         b_offsets.push(b);
         b += (f.len() * values) as u64;
         c_offsets.push(c);
@@ -284,6 +297,8 @@ fn sweeps(tier: Tier) -> Sweeps {
         c_offsets,
         c,
         values,
+        d_offsets,
+        d,
     }
 }
 
@@ -310,7 +325,7 @@ impl Prop for C04 {
     }
     fn sweep_len(&self, tier: Tier) -> u64 {
         let s = sweeps(tier);
-        s.a + s.b + s.c
+        s.a + s.b + s.c + s.d
     }
     fn sweep_case(&self, tier: Tier, idx: u64) -> CodecSc {
         let s = sweeps(tier);
@@ -349,6 +364,27 @@ impl Prop for C04 {
             };
         }
         let idx = idx - s.b;
+        if idx >= s.c {
+            let idx = idx - s.c;
+            let bi = s.d_offsets.partition_point(|o| *o <= idx) - 1;
+            let (mode, base) = &base_frames()[bi];
+            let r = (idx - s.d_offsets[bi]) as usize;
+            let pos = 2 + r / PATTERNS.len();
+            let pat = PATTERNS[r % PATTERNS.len()];
+            let mut f = base.clone();
+            for (i, b) in pat.iter().enumerate() {
+                if pos + i < f.len() {
+                    f[pos + i] = *b;
+                }
+            }
+            f.extend_from_slice(&successor(*mode));
+            return CodecSc {
+                mode: *mode,
+                stream: f,
+                segs: vec![],
+                note: format!("pattern sweep: frame of type {} ({} bytes), bytes {}.. := {}", base[1], base.len(), pos, hex::enc(pat)),
+            };
+        }
         let bi = s.c_offsets.partition_point(|o| *o <= idx) - 1;
         let (mode, base) = &base_frames()[bi];
         let cut = (idx - s.c_offsets[bi]) as usize + 1;
@@ -368,6 +404,7 @@ impl Prop for C04 {
             "header_pairs": {"what": "every (size byte, type byte) x {compressed, uncompressed} x body fill {0x00, 0xFF}, frame of the announced length followed by two valid frames", "cases": s.a, "exhaustive_over_this_subspace": true},
             "byte_substitution": {"what": "one zero-bodied frame per packet kind (and a second accepted size for variable-length kinds), every byte position x substitute values", "base_frames": base_frames().len(), "values_per_position": s.values, "cases": s.b, "exhaustive_over_this_subspace": s.values == 256},
             "truncation": {"what": "every cut point of every base frame, followed by valid frames", "cases": s.c, "exhaustive_over_this_subspace": true},
+            "text_patterns": {"what": "each of a list of multi-byte patterns (text escapes, codepage markers, UTF-8 sequences, version syntax) written at every body position of every base frame", "patterns": PATTERNS.iter().map(|p| hex::enc(p)).collect::<Vec<_>>(), "cases": s.d, "exhaustive_over_this_subspace": true},
         })
     }
 
